@@ -1,4 +1,5 @@
 import WebAuthnModel.Model.Fido
+import WebAuthnModel.Proofs.JwsLemmas
 /-
   C15 — AAGUID text form round trips (`AAGUID.String` / `uuid.Parse`) and `UnmarshalMetadataBLOBPayload`.
 -/
@@ -360,17 +361,18 @@ theorem blobOpaque_reject_bad_signature (env : Prog.Env) (raw : Bytes) (pool : N
 
 /-- what makes `UnmarshalMetadataBLOBPayload` return `payload` under the configured pool (code `pool`).
     * compact serialisation: the token parses (`Jws.parse`), every `x5c` entry is a certificate, there is at least one, the first one
-      validates against the CONFIGURED pool with the others as intermediates, go-jose reaches the signature check and the signature
-      verifies under that first certificate's key, and the PAYLOAD SEGMENT OF THE TOKEN decodes to `payload`;
+      validates against the CONFIGURED pool with the others as intermediates, go-jose reaches the signature check and the signature over
+      the signing input verifies under that first certificate's key with the primitive the header's `alg` names for that key kind
+      (`Jws.SignedBy`, Model/JwsVerify.lean), and the PAYLOAD SEGMENT OF THE TOKEN decodes to `payload`;
     * the forms the Lean model does not cover: the dependency's own view, as before. -/
 inductive BlobOK (env : Prog.Env) (raw : Bytes) (pool : Nat) (payload : Bytes) : Prop where
   | compact (c : Jws.Compact) (leaf : Bytes) (rest : List Bytes)
       (parsed : Jws.parse raw = .ok c)
       (chain : c.x5c = leaf :: rest)
       (certs : ∀ d ∈ c.x5c, ∃ cv, env.answer (.x509Parse d) = .cert cv)
+      (leafCert : CertView) (leafParsed : env.answer (.x509Parse leaf) = .cert leafCert)
       (trusted : env.answer (.x509VerifyPool leaf rest pool) = .bool true)
-      (verifiable : c.verifiable = true)
-      (signed : env.answer (.jwsVerify raw leaf) = .bool true)
+      (signed : Jws.SignedBy env raw c leaf leafCert.key)
       (decoded : env.answer (.blobPayload c.payload) = .bytes payload)
   | opaque (n : Nat) (leaf0 : Bytes)
       (unmodelled : Jws.parse raw = .unmodelled)
@@ -388,46 +390,102 @@ theorem run_ite {α} (env : Prog.Env) (c : Prop) [Decidable c] (p q : Prog α) :
     Prog.run env (if c then p else q) = if c then Prog.run env p else Prog.run env q := by
   split <;> rfl
 
-theorem parseChain_run (env : Prog.Env) (ds : List Bytes) :
-    Prog.run env (Fido.parseChain ds) = true ↔ ∀ d ∈ ds, ∃ cv, env.answer (.x509Parse d) = .cert cv := by
-  induction ds with
-  | nil => simp [Fido.parseChain]
+/-- `Fido.parseChain` succeeds exactly when every entry parses, returning the views in order -/
+def ChainViews (env : Prog.Env) : List Bytes → List CertView → Prop
+  | [], [] => True
+  | d :: ds, c :: cs => env.answer (.x509Parse d) = .cert c ∧ ChainViews env ds cs
+  | _, _ => False
+
+theorem parseChain_run (env : Prog.Env) (ds : List Bytes) (cs : List CertView) :
+    Prog.run env (Fido.parseChain ds) = some cs ↔ ChainViews env ds cs := by
+  induction ds generalizing cs with
+  | nil => cases cs <;> simp [Fido.parseChain, ChainViews]
   | cons der rest ih =>
-    simp only [Fido.parseChain, Prog.run_bind, Prog.run_query, List.mem_cons, forall_eq_or_imp]
-    cases h : env.answer (.x509Parse der) <;> simp [ih]
+    simp only [Fido.parseChain, Prog.run_bind, Prog.run_query]
+    cases hq : env.answer (.x509Parse der) with
+    | cert cv =>
+      simp only [Prog.run_bind]
+      cases hr : Prog.run env (Fido.parseChain rest) with
+      | none =>
+        cases cs with
+        | nil => simp [ChainViews]
+        | cons c' cs' =>
+          simp only [Prog.run_pure, ChainViews, reduceCtorEq, false_iff, not_and]
+          intro _ h
+          rw [← ih, hr] at h; cases h
+      | some cs0 =>
+        cases cs with
+        | nil => simp [ChainViews]
+        | cons c' cs' =>
+          simp only [Prog.run_pure, ChainViews, Option.some.injEq, List.cons.injEq, hq, Resp.cert.injEq, ← ih, hr]
+    | _ => cases cs <;> simp [ChainViews, hq]
+
+theorem chainViews_all (env : Prog.Env) (ds : List Bytes) (cs : List CertView) (h : ChainViews env ds cs) :
+    ∀ d ∈ ds, ∃ cv, env.answer (.x509Parse d) = .cert cv := by
+  induction ds generalizing cs with
+  | nil => intro d hd; cases hd
+  | cons der rest ih =>
+    cases cs with
+    | nil => exact absurd h (by simp [ChainViews])
+    | cons c' cs' =>
+      obtain ⟨h1, h2⟩ := h
+      intro d hd
+      rcases List.mem_cons.1 hd with rfl | hd
+      · exact ⟨c', h1⟩
+      · exact ih cs' h2 d hd
+
+theorem chainViews_of_all (env : Prog.Env) (ds : List Bytes) (h : ∀ d ∈ ds, ∃ cv, env.answer (.x509Parse d) = .cert cv) :
+    ∃ cs, ChainViews env ds cs := by
+  induction ds with
+  | nil => exact ⟨[], trivial⟩
+  | cons der rest ih =>
+    obtain ⟨cv, hcv⟩ := h der (List.mem_cons_self ..)
+    obtain ⟨cs, hcs⟩ := ih (fun d hd => h d (List.mem_cons_of_mem _ hd))
+    exact ⟨cv :: cs, hcv, hcs⟩
 
 /-- the compact branch -/
 theorem blobCompact_iff (env : Prog.Env) (raw : Bytes) (c : Jws.Compact) (pool : Nat) (payload : Bytes) :
     Prog.run env (Fido.unmarshalBlobCompact raw c pool) = some payload ↔
-      ∃ leaf rest, c.x5c = leaf :: rest ∧ (∀ d ∈ c.x5c, ∃ cv, env.answer (.x509Parse d) = .cert cv) ∧
-        env.answer (.x509VerifyPool leaf rest pool) = .bool true ∧ c.verifiable = true ∧
-        env.answer (.jwsVerify raw leaf) = .bool true ∧ env.answer (.blobPayload c.payload) = .bytes payload := by
-  simp only [Fido.unmarshalBlobCompact, Prog.run_bind, run_ite, Prog.run_pure]
-  rw [← parseChain_run]
+      ∃ leaf rest leafCert cs, c.x5c = leaf :: rest ∧ ChainViews env c.x5c (leafCert :: cs) ∧
+        env.answer (.x509VerifyPool leaf rest pool) = .bool true ∧ Jws.SignedBy env raw c leaf leafCert.key ∧
+        env.answer (.blobPayload c.payload) = .bytes payload := by
+  simp only [Fido.unmarshalBlobCompact, Prog.run_bind]
   cases hp : Prog.run env (Fido.parseChain c.x5c) with
-  | false => simp
-  | true =>
+  | none =>
+    simp only [Prog.run_pure, reduceCtorEq, false_iff, not_exists, not_and]
+    intro leaf rest leafCert cs _ hc
+    rw [← parseChain_run, hp] at hc; cases hc
+  | some cs =>
+    have hcv := (parseChain_run env _ _).1 hp
     cases hx : c.x5c with
-    | nil => simp
+    | nil =>
+      cases cs <;> simp
     | cons leaf rest =>
-      simp only [Prog.run_bind, run_ite, Prog.run_pure, Prog.run_query, List.cons.injEq]
-      constructor
-      · intro hr
-        by_cases hv : Prog.run env (Fido.askBool (.x509VerifyPool leaf rest pool)) = true
-        · simp only [hv, Bool.not_true, Bool.false_eq_true, if_false] at hr
-          by_cases hvf : c.verifiable = true
-          · simp only [hvf, Bool.not_true, Bool.false_eq_true, if_false] at hr
-            by_cases hs : Prog.run env (Fido.askBool (.jwsVerify raw leaf)) = true
+      rw [hx] at hcv
+      cases cs with
+      | nil => exact absurd hcv (by simp [ChainViews])
+      | cons leafCert cs0 =>
+        simp only [Prog.run_bind, run_ite, Prog.run_pure, Prog.run_query, List.cons.injEq]
+        constructor
+        · intro hr
+          by_cases hv : Prog.run env (Fido.askBool (.x509VerifyPool leaf rest pool)) = true
+          · simp only [hv, Bool.not_true, Bool.false_eq_true, if_false] at hr
+            by_cases hs : Prog.run env (Jws.signatureOK raw c leaf leafCert.key) = true
             · simp only [hs, Bool.not_true, Bool.false_eq_true, if_false] at hr
-              refine ⟨leaf, rest, ⟨rfl, rfl⟩, trivial, (run_askBool _ _).1 hv, hvf, (run_askBool _ _).1 hs, ?_⟩
+              refine ⟨leaf, rest, leafCert, cs0, ⟨rfl, rfl⟩, hcv, (run_askBool _ _).1 hv, (JwsLemmas.run_signatureOK _ _ _ _ _).1 hs, ?_⟩
               cases hb : env.answer (.blobPayload c.payload) <;> rw [hb] at hr <;> simp at hr
               rw [hr]
             · simp [hs] at hr
-          · simp [hvf] at hr
-        · simp [hv] at hr
-      · rintro ⟨leaf', rest', ⟨rfl, rfl⟩, -, hv, hvf, hs, hb⟩
-        rw [← run_askBool] at hv hs
-        simp [hv, hvf, hs, hb]
+          · simp [hv] at hr
+        · rintro ⟨leaf', rest', leafCert', cs', ⟨rfl, rfl⟩, hcv', hv, hs, hb⟩
+          have e : leafCert = leafCert' := by
+            have h1 := hcv.1
+            rw [hcv'.1] at h1
+            exact (Resp.cert.inj h1).symm
+          subst e
+          rw [← run_askBool] at hv
+          rw [← JwsLemmas.run_signatureOK] at hs
+          simp [hv, hs, hb]
 
 /-- a payload is returned iff `BlobOK` under the LAST configured pool (the default root when no option is given) -/
 theorem blob_iff (env : Prog.Env) (raw : Bytes) (opts : List Fido.Pool) (payload : Bytes) :
@@ -453,28 +511,67 @@ theorem blob_iff (env : Prog.Env) (raw : Bytes) (opts : List Fido.Pool) (payload
   | ok c =>
     simp only [blobCompact_iff]
     constructor
-    · rintro ⟨leaf, rest, hx, hc, hv, hvf, hs, hb⟩
-      exact BlobOK.compact c leaf rest hp hx hc hv hvf hs hb
+    · rintro ⟨leaf, rest, leafCert, cs, hx, hc, hv, hs, hb⟩
+      refine BlobOK.compact c leaf rest hp hx (chainViews_all env _ _ hc) leafCert ?_ hv hs hb
+      rw [hx] at hc
+      exact hc.1
     · intro h
       cases h with
-      | compact c' leaf rest parsed hx hc hv hvf hs hb =>
+      | compact c' leaf rest parsed hx hc leafCert hl hv hs hb =>
         rw [hp] at parsed; cases parsed
-        exact ⟨leaf, rest, hx, hc, hv, hvf, hs, hb⟩
+        obtain ⟨cs, hcs⟩ := chainViews_of_all env _ hc
+        have hcs' := hcs
+        rw [hx] at hcs'
+        cases cs with
+        | nil => exact absurd hcs' (by simp [ChainViews])
+        | cons c0 cs0 =>
+          have e : c0 = leafCert := by
+            have := hcs'.1
+            rw [hl] at this
+            exact (Resp.cert.inj this).symm
+          subst e
+          exact ⟨leaf, rest, c0, cs0, hx, hcs, hv, hs, hb⟩
       | «opaque» n leaf0 unmodelled => rw [hp] at unmodelled; cases unmodelled
 
-/-- the payload returned is the decoding of the token's own payload segment, the segment the verified signature covers
+/-- the payload returned is the decoding of the token's own payload segment, and the signature that was checked — with the primitive
+    the header names, under the first certificate's key — is over the signing input, which contains that segment and determines it
     (`Compact.signingInput` = base64url(protected) "." base64url(payload), `C04Jws.signingInput_inj`) -/
 theorem blob_payload_is_signed (env : Prog.Env) (raw : Bytes) (opts : List Fido.Pool) (payload : Bytes) (c : Jws.Compact)
     (hp : Jws.parse raw = .ok c) (h : Prog.run env (Fido.unmarshalBlob raw opts) = some payload) :
     env.answer (.blobPayload c.payload) = .bytes payload ∧
-    ∃ leaf rest, c.x5c = leaf :: rest ∧ env.answer (.jwsVerify raw leaf) = .bool true ∧
+    ∃ leaf rest leafCert, c.x5c = leaf :: rest ∧ env.answer (.x509Parse leaf) = .cert leafCert ∧
+      Jws.SignedBy env raw c leaf leafCert.key ∧
       env.answer (.x509VerifyPool leaf rest (Fido.configPool opts).code) = .bool true := by
   rw [blob_iff] at h
   cases h with
-  | compact c' leaf rest parsed hx hc hv hvf hs hb =>
+  | compact c' leaf rest parsed hx hc leafCert hl hv hs hb =>
     rw [hp] at parsed; cases parsed
-    exact ⟨hb, leaf, rest, hx, hs, hv⟩
+    exact ⟨hb, leaf, rest, leafCert, hx, hl, hs, hv⟩
   | «opaque» n leaf0 unmodelled => rw [hp] at unmodelled; cases unmodelled
+
+/-- with a key the certificate view describes (RSA, EC on P-256/384/521, Ed25519) the check is the named primitive over the signing input -/
+theorem signedBy_primitive (env : Prog.Env) (raw : Bytes) (c : Jws.Compact) (leaf : Bytes) (key : KeyMat) (hk : key ≠ .other)
+    (h : Jws.SignedBy env raw c leaf key) :
+    ∃ sc hh sg, Jws.verifyPlan c.alg key c.signature = .primitive sc hh sg ∧
+      env.answer (.sigVerify sc hh key c.signingInput sg) = .bool true := by
+  obtain ⟨_, h2⟩ := h
+  cases hpl : Jws.verifyPlan c.alg key c.signature with
+  | reject => rw [hpl] at h2; exact h2.elim
+  | primitive sc hh sg => rw [hpl] at h2; exact ⟨sc, hh, sg, rfl, h2⟩
+  | «opaque» =>
+    cases key with
+    | other => exact absurd rfl hk
+    | rsa n e =>
+      simp only [Jws.verifyPlan, Jws.rsaPlan] at hpl
+      repeat' split at hpl
+      all_goals cases hpl
+    | ec crv x y =>
+      simp only [Jws.verifyPlan, Jws.ecPlan, Jws.ecPlanFor] at hpl
+      repeat' split at hpl
+      all_goals cases hpl
+    | ed k =>
+      simp only [Jws.verifyPlan] at hpl
+      split at hpl <;> cases hpl
 
 /-- consequences named in the property -/
 theorem blob_reject_unparsable (env : Prog.Env) (raw : Bytes) (opts : List Fido.Pool) (h : Jws.parse raw = .error) :
@@ -493,7 +590,7 @@ theorem blob_reject_missing_chain (env : Prog.Env) (raw : Bytes) (opts : List Fi
   cases hr : Prog.run env (Fido.unmarshalBlob raw opts) with
   | none => rfl
   | some payload =>
-    obtain ⟨_, leaf, rest, hx, _⟩ := blob_payload_is_signed env raw opts payload c hp hr
+    obtain ⟨_, leaf, rest, _, hx, _⟩ := blob_payload_is_signed env raw opts payload c hp hr
     rw [h] at hx; cases hx
 
 /-- the chain does not validate against the configured pool (another root, expired, reordered, a CA constraint violated) -/
@@ -504,48 +601,58 @@ theorem blob_reject_bad_chain (env : Prog.Env) (raw : Bytes) (opts : List Fido.P
   cases hr : Prog.run env (Fido.unmarshalBlob raw opts) with
   | none => rfl
   | some payload =>
-    obtain ⟨_, leaf', rest', hx', _, hv⟩ := blob_payload_is_signed env raw opts payload c hp hr
+    obtain ⟨_, leaf', rest', _, hx', _, _, hv⟩ := blob_payload_is_signed env raw opts payload c hp hr
     rw [hx] at hx'; cases hx'
     exact absurd hv h
 
 /-- the signature does not verify under the key of the FIRST certificate (altered payload, signature or protected header; signed by
-    another key, including the key of another chain member) -/
+    another key, including the key of another chain member; an algorithm that does not fit the key) -/
 theorem blob_reject_bad_signature (env : Prog.Env) (raw : Bytes) (opts : List Fido.Pool) (c : Jws.Compact) (leaf : Bytes) (rest : List Bytes)
-    (hp : Jws.parse raw = .ok c) (hx : c.x5c = leaf :: rest) (h : env.answer (.jwsVerify raw leaf) ≠ .bool true) :
+    (leafCert : CertView) (hp : Jws.parse raw = .ok c) (hx : c.x5c = leaf :: rest) (hl : env.answer (.x509Parse leaf) = .cert leafCert)
+    (h : ¬ Jws.SignedBy env raw c leaf leafCert.key) :
     Prog.run env (Fido.unmarshalBlob raw opts) = none := by
   cases hr : Prog.run env (Fido.unmarshalBlob raw opts) with
   | none => rfl
   | some payload =>
-    obtain ⟨_, leaf', rest', hx', hs, _⟩ := blob_payload_is_signed env raw opts payload c hp hr
+    obtain ⟨_, leaf', rest', leafCert', hx', hl', hs, _⟩ := blob_payload_is_signed env raw opts payload c hp hr
     rw [hx] at hx'; cases hx'
+    rw [hl] at hl'; cases hl'
     exact absurd hs h
 
-/-- non-vacuity: the token `base64url({"x5c":["AA=="]}) . base64url({}) . ""` with the dependencies answering positively -/
+/-- non-vacuity: the token `base64url({"alg":"EdDSA","x5c":["AA=="]}) . base64url({}) . ""` with the dependencies answering positively
+    (the certificate carries an Ed25519 key; the Ed25519 check over the signing input succeeds) -/
 def okEnv : Prog.Env := ⟨fun q => match q with
-  | .x509Parse _ => .cert default
+  | .x509Parse _ => .cert ⟨3, false, [], [], [], [], [], [], .ed []⟩
   | .x509VerifyPool .. => .bool true
-  | .jwsVerify .. => .bool true
+  | .sigVerify .eddsa _ _ _ _ => .bool true
   | .blobPayload p => .bytes p
   | _ => .none⟩
 
 /-- kernel evaluation of the JWS model on the compact example token -/
 theorem compact_parse_aux :
-    (match Jws.parse (Bytes.ofString "eyJ4NWMiOlsiQUE9PSJdfQ.e30.") with
-     | .ok c => c.x5c == [[0]] && c.payload == Bytes.ofString "{}" && c.verifiable
+    (match Jws.parse (Bytes.ofString "eyJhbGciOiJFZERTQSIsIng1YyI6WyJBQT09Il19.e30.") with
+     | .ok c => c.x5c == [[0]] && c.payload == Bytes.ofString "{}" && c.verifiable && c.alg == Jws.str "EdDSA"
      | _ => false) = true := by
   decide +kernel
 
 theorem blob_accepts_compact :
-    Prog.run okEnv (Fido.unmarshalBlob (Bytes.ofString "eyJ4NWMiOlsiQUE9PSJdfQ.e30.") []) = some (Bytes.ofString "{}") := by
+    Prog.run okEnv (Fido.unmarshalBlob (Bytes.ofString "eyJhbGciOiJFZERTQSIsIng1YyI6WyJBQT09Il19.e30.") []) = some (Bytes.ofString "{}") := by
   have hp := compact_parse_aux
   rw [blob_iff]
-  cases hc : Jws.parse (Bytes.ofString "eyJ4NWMiOlsiQUE9PSJdfQ.e30.") with
+  cases hc : Jws.parse (Bytes.ofString "eyJhbGciOiJFZERTQSIsIng1YyI6WyJBQT09Il19.e30.") with
   | ok c =>
     rw [hc] at hp
     simp only [Bool.and_eq_true, beq_iff_eq] at hp
-    obtain ⟨⟨hx, hpl⟩, hv⟩ := hp
-    refine BlobOK.compact c [0] [] hc hx (fun d _ => ⟨default, rfl⟩) rfl hv rfl ?_
-    rw [hpl]; rfl
+    obtain ⟨⟨⟨hx, hpl⟩, hv⟩, ha⟩ := hp
+    refine BlobOK.compact c [0] [] hc hx (fun d _ => ⟨_, rfl⟩) _ rfl rfl ⟨hv, ?_⟩ ?_
+    · show match Jws.verifyPlan c.alg (.ed []) c.signature with
+        | .reject => False
+        | .primitive s h sig => okEnv.answer (.sigVerify s h (.ed []) c.signingInput sig) = .bool true
+        | .«opaque» => okEnv.answer (.jwsVerify _ [0]) = .bool true
+      rw [ha]
+      simp only [Jws.verifyPlan, if_true]
+      rfl
+    · rw [hpl]; rfl
   | error => rw [hc] at hp; cases hp
   | unmodelled => rw [hc] at hp; cases hp
 
